@@ -460,7 +460,12 @@ func fetch(args []string, jsonMode bool, output string) (page, error) {
 		}
 		return p, nil
 	}
-	v, err := cResp.Do(args...)
+	return fetchOn(cResp, args)
+}
+
+// fetchOn requests one page on a given RESP-mode connection.
+func fetchOn(conn *t38.Conn, args []string) (page, error) {
+	v, err := conn.Do(args...)
 	if err != nil {
 		return page{}, fmt.Errorf("%s: transport: %v", t38.CmdString(args), err)
 	}
@@ -667,10 +672,18 @@ func TestReplay(t *testing.T) {
 	}
 	c := ev.New("C11", "replay", "exploration")
 	t.Cleanup(c.Flush)
+	c.Case()
+	if doc.Check == "interleaved" {
+		var d interCase
+		if err := json.Unmarshal(doc.Data, &d); err != nil {
+			t.Fatalf("bad replay data: %v", err)
+		}
+		runInterCase(t, c, d)
+		return
+	}
 	var d pageCase
 	if err := json.Unmarshal(doc.Data, &d); err != nil {
 		t.Fatalf("bad replay data: %v", err)
 	}
-	c.Case()
 	runPageCase(t, c, d)
 }
